@@ -93,7 +93,7 @@ def tlc(module, cfg=None, workers=None, cwd=SPEC, env=None, timeout=1800, extra=
     if own_meta:
         metadir = os.path.join(WORKROOT, "meta-%d-%d" % (os.getpid(), int(time.time() * 1e6) % 10**9))
     os.makedirs(metadir, exist_ok=True)
-    cmd = ["java", "-XX:+UseParallelGC", "-Xmx" + heap, "-Xss16m", "-cp", TLA_CP, "tlc2.TLC",
+    cmd = ["java", "-XX:+UseParallelGC", "-Xmx" + heap, "-Xss16m", "-DTLA-Library=" + SPEC, "-cp", TLA_CP, "tlc2.TLC",
            "-metadir", metadir, "-noGenerateSpecTE", "-workers", str(workers or 1)]
     if cfg:
         cmd += ["-config", cfg]
